@@ -6,11 +6,18 @@ close+open at arbitrary points, post-close operations, path refusals). DBMDict: 
 because a second open of a live path blocks on the class-level lock.
 """
 import collections
+import json
 import os
+import pickle
 
 from vlib.common import fp, exc_site
 
 LEVEL = "exploration"
+
+
+TRICKY_VALUES = [pickle.dumps(b"inner bytes"), pickle.dumps(None) + b"trailing", pickle.dumps(b"x", protocol=2),
+                 pickle.dumps({"a": 1}), pickle.dumps(b"y", protocol=0), b"\x80\x04\x95", b"\x80", json.dumps({"k": "v"}).encode(),
+                 b"\x00" * 7, b"\xff\xfe", b"None", b"b'q'"]
 
 
 class MissingDict(dict):
@@ -103,7 +110,9 @@ class Runner:
         sib, sib_model = None, {}
         if rng.random() < 0.3 and full:
             try:
-                sib = cls.create(path + "-sibling")
+                # (a name a careless implementation might use for its own temporary file)
+                sib_path = path + rng.choice(["-sibling", ".tmp", ".bak", "~", ".new"])
+                sib = cls.create(sib_path)
                 acc.count("sequences_with_a_sibling_dict")
             except Exception as e:
                 self.viol(f"sibling-create-raised:{exc_site(e)}", f"{type(e).__name__}: {e}")
@@ -131,7 +140,19 @@ class Runner:
                     self.viol("sibling-cross-talk", "the second dictionary was changed by operations on the first")
                     raise Fail()
                 sib.close()
-                sib = cls.open(path + "-sibling")
+                # the first dictionary is synced / closed and reopened while the second one is closed on disk
+                if full and rng.random() < 0.7:
+                    d.sync()
+                    d.close()
+                    d = cls.open(path)
+                    self.trace.append(["close+open while the sibling is closed"])
+                try:
+                    sib = cls.open(sib_path)
+                except Exception as e:
+                    self.viol(f"sibling-lost:{exc_site(e)}", f"a second dictionary ({os.path.basename(sib_path)}) that was "
+                                                            f"closed cannot be reopened after the first one was closed: "
+                                                            f"{type(e).__name__}: {e}")
+                    raise Fail()
                 if {k: sib[k] for k in list(sib)} != sib_model:
                     self.viol("sibling-cross-talk", "the second dictionary differs after close+open")
                     raise Fail()
@@ -162,7 +183,10 @@ class Runner:
         acc.count(f"op.{op}")
         k = rng.choice(UNIVERSE)
         if op == "set":
-            v = rng.choice([rng.randbytes(rng.randint(0, 8)), b"", bytearray(b"ba")])
+            v = rng.choice([rng.randbytes(rng.randint(0, 8)), b"", bytearray(b"ba"), rng.randbytes(rng.randint(0, 8)),
+                            # byte strings that are themselves serialised objects (a store that sniffs its own format
+                            # must still give back exactly what was stored)
+                            rng.choice(TRICKY_VALUES)])
             self.trace.append(["set", k.hex(), bytes(v).hex()])
             try:
                 d[k] = v
